@@ -20,6 +20,8 @@
 (*       SnapEnds ZLogged YLogged Image SameHolder                         *)
 (*   C16 FailContained FailCount FailBest (FailRecord = the C06 clauses)   *)
 (*   C20 OnGrid                                                            *)
+(*   C13 NotifBefore NotifNewPoints NotifEndIterCount NotifStopCount       *)
+(*       NotifStopFinal NotifStopStatus ConsoleReport                      *)
 (***************************************************************************)
 EXTENDS AGPCore, EvolventQ, Json, IOUtils, TLC
 
@@ -36,8 +38,12 @@ VARIABLES tpos, tfailed, tnfail, tdone, tstats,
           spc,       \* "idle" | "dgi" | "solve": the public call in progress
           scall0,    \* strials when the call began
           sfault,    \* the objective raised during the current call
-          slocal     \* number of local-refinement evaluations seen in the current call
-vars == <<tpos, tfailed, tnfail, tdone, tstats, scfg, spts, sM, sZ, sminD, strials, spc, scall0, sfault, slocal>>
+          slocal,    \* number of local-refinement evaluations seen in the current call
+          sn         \* notifications seen by the recording listener (C13): [before, enditers, stops, new, stopsol, last]
+                     \*   before/enditers/stops: counts (before: whole run; the others: current call)
+                     \*   new: coordinates of the trials made since the last OnEndIteration / call start
+                     \*   stopsol: solution snapshot passed to OnMethodStop; last: solution snapshot after the last call
+vars == <<tpos, tfailed, tnfail, tdone, tstats, scfg, spts, sM, sZ, sminD, strials, spc, scall0, sfault, slocal, sn>>
 
 R_  == scfg.r
 rM  == QMul(scfg.r, sM)
@@ -88,21 +94,21 @@ Refresh(pts, t, changed, rMn, Zn) ==
           ELSE pts[i]]
 
 (* --- snapshot clauses (C06, C04, C03) --------------------------------------------------------- *)
-SnapFails(sn) ==
-  IF "error" \in DOMAIN sn THEN {"SnapIter"}
+SnapFails(snp) ==
+  IF "error" \in DOMAIN snp THEN {"SnapIter"}
   ELSE
-     (IF sn.count = (IF strials = 0 THEN 0 ELSE strials + 2) /\ sn.n = sn.count THEN {} ELSE {"SnapCount"})
-\cup (IF sn.links THEN {} ELSE {"SnapLinks"})
-\cup (IF sn.items = <<>> \/ Len(sn.items) # Len(spts) THEN {}     \* summary snapshots carry no items
-      ELSE   {"SnapOrder"  : i \in {k \in 1..Len(spts) : sn.items[k].x # spts[k].x}}
-        \cup {"SnapZ"      : i \in {k \in 1..Len(spts) : sn.items[k].z # spts[k].z \/ sn.items[k].ev # (spts[k].z # None)}}
-        \cup {"SnapHolder" : i \in {k \in 1..Len(spts) : sn.items[k].fv # spts[k].z}}
-        \cup {"SnapEnds"   : i \in {k \in {1, Len(spts)} : sn.items[k].ev}}
+     (IF snp.count = (IF strials = 0 THEN 0 ELSE strials + 2) /\ snp.n = snp.count THEN {} ELSE {"SnapCount"})
+\cup (IF snp.links THEN {} ELSE {"SnapLinks"})
+\cup (IF snp.items = <<>> \/ Len(snp.items) # Len(spts) THEN {}     \* summary snapshots carry no items
+      ELSE   {"SnapOrder"  : i \in {k \in 1..Len(spts) : snp.items[k].x # spts[k].x}}
+        \cup {"SnapZ"      : i \in {k \in 1..Len(spts) : snp.items[k].z # spts[k].z \/ snp.items[k].ev # (spts[k].z # None)}}
+        \cup {"SnapHolder" : i \in {k \in 1..Len(spts) : snp.items[k].fv # spts[k].z}}
+        \cup {"SnapEnds"   : i \in {k \in {1, Len(spts)} : snp.items[k].ev}}
         \cup {"SnapDelta"  : i \in {k \in 2..Len(spts) :
-                 sn.items[k].d = "inf" \/ sn.items[k].d = "-inf" \/
-                 ~QClose(QPowN(sn.items[k].d, N), QSub(spts[k].x, spts[k - 1].x),
+                 snp.items[k].d = "inf" \/ snp.items[k].d = "-inf" \/
+                 ~QClose(QPowN(snp.items[k].d, N), QSub(spts[k].x, spts[k - 1].x),
                          QMul(QPow2(-38), QSub(spts[k].x, spts[k - 1].x)))}}
-        \cup {"SnapImage"  : i \in {k \in 1..Len(spts) : sn.items[k].y # spts[k].y}})
+        \cup {"SnapImage"  : i \in {k \in 1..Len(spts) : snp.items[k].y # spts[k].y}})
 
 BestFails(sol, bf, refined) ==
   IF strials = 0 THEN {}
@@ -122,12 +128,17 @@ AccFails(sol) ==
   ELSE IF sol.acc \in {"inf", "-inf"} THEN {"Accuracy"}
   ELSE IF QClose(sol.acc, sminD, QMul(QPow2(-38), sminD)) THEN {} ELSE {"Accuracy"}
 
+Sn0 == [before |-> 0, enditers |-> 0, stops |-> 0, new |-> <<>>, stopsol |-> <<>>, last |-> <<>>]
+Probing == "probing" \in DOMAIN scfg /\ scfg.probing      \* attached painters evaluate the objective for drawing
+Hears(kind) == "cbs" \in DOMAIN scfg /\ \E i \in 1..Len(scfg.cbs) : scfg.cbs[i] = kind
+
 ---------------------------------------------------------------------------
 Init ==
   /\ tpos = 1 /\ tfailed = {} /\ tnfail = 0 /\ tdone = FALSE
   /\ tstats = [runs |-> 0, trials |-> 0, argmax |-> 0, ties |-> 0, recalcs |-> 0]
   /\ scfg = [n |-> 0] /\ spts = <<>> /\ sM = Q1 /\ sZ = None /\ sminD = "inf" /\ strials = 0
   /\ spc = "idle" /\ scall0 = 0 /\ sfault = FALSE /\ slocal = 0
+  /\ sn = Sn0
 
 Note(e, f) ==
   /\ tfailed' = IF Cardinality(tfailed) < 30 THEN tfailed \cup {<<e.tid, e.id, c>> : c \in f} ELSE tfailed
@@ -135,13 +146,14 @@ Note(e, f) ==
 
 EvInit(e) ==
   /\ scfg' = e /\ spts' = <<>> /\ sM' = Q1 /\ sZ' = None /\ sminD' = "inf" /\ strials' = 0
-  /\ spc' = "idle" /\ scall0' = 0 /\ sfault' = FALSE /\ slocal' = 0
+  /\ spc' = "idle" /\ scall0' = 0 /\ sfault' = FALSE /\ slocal' = 0 /\ sn' = Sn0
   /\ tstats' = [tstats EXCEPT !.runs = @ + 1]
   /\ Note(e, IF e.n = N THEN {} ELSE {"WrongDimensionInBatch"})
 
 EvCall(e) ==
   /\ spc' = e.name /\ scall0' = strials /\ sfault' = FALSE /\ slocal' = 0
   /\ Note(e, {})
+  /\ sn' = [sn EXCEPT !.enditers = 0, !.stops = 0, !.new = <<>>, !.stopsol = <<>>]
   /\ UNCHANGED <<scfg, spts, sM, sZ, sminD, strials, tstats>>
 
 EvFirstTrial(e) ==
@@ -154,6 +166,7 @@ EvFirstTrial(e) ==
         /\ spts' = Recalc([i \in 1..3 |-> [x |-> p0[i].x, z |-> p0[i].z, d |-> p0[i].d, R |-> p0[i].R,
                                             y |-> IF i = 2 THEN e.y ELSE <<>>]], QMul(scfg.r, Q1), e.z)
   /\ strials' = 1 /\ sminD' = sminD
+  /\ sn' = [sn EXCEPT !.new = Append(@, e.x)]
   /\ tstats' = [tstats EXCEPT !.trials = @ + 1]
   /\ UNCHANGED <<scfg, spc, scall0, sfault, slocal>>
 
@@ -162,6 +175,7 @@ TrialAt(e, t) ==
   IF t = 0
   THEN /\ Note(e, {"Inside"} \cup PointFails(e) \cup StopFails)
        /\ strials' = strials + 1
+       /\ sn' = [sn EXCEPT !.new = Append(@, e.x)]
        /\ tstats' = [tstats EXCEPT !.trials = @ + 1]
        /\ UNCHANGED <<scfg, spts, sM, sZ, sminD, spc, scall0, sfault, slocal>>
   ELSE
@@ -179,6 +193,7 @@ TrialAt(e, t) ==
                                         !.recalcs = @ + (IF Mn # sM \/ Zn # sZ THEN 1 ELSE 0),
                                         !.ties = @ + (IF \E k \in 2..Len(spts) : k # t /\ spts[k].R = spts[t].R THEN 1 ELSE 0)]
        /\ strials' = strials + 1
+       /\ sn' = [sn EXCEPT !.new = Append(@, e.x)]
        /\ UNCHANGED <<scfg, spc, scall0, sfault, slocal>>
 
 EvTrial(e) == IF strials = 0 THEN EvFirstTrial(e) ELSE TrialAt(e, Locate(spts, e.x))
@@ -186,31 +201,42 @@ EvTrial(e) == IF strials = 0 THEN EvFirstTrial(e) ELSE TrialAt(e, Locate(spts, e
 EvFail(e) ==
   /\ sfault' = TRUE
   /\ Note(e, (IF InBoxV(e.ylog) THEN {} ELSE {"InBox"}) \cup StopFails)
-  /\ UNCHANGED <<scfg, spts, sM, sZ, sminD, strials, spc, scall0, slocal, tstats>>
+  /\ UNCHANGED <<scfg, spts, sM, sZ, sminD, strials, spc, scall0, slocal, tstats, sn>>
 
 EvLocal(e) ==
   /\ slocal' = slocal + 1
   /\ Note(e, (IF InBoxV(e.ylog) THEN {} ELSE {"RefInBox"})
-             \cup (IF (spc = "solve" /\ scfg.refine) \/ spc = "localref" THEN {} ELSE {"UnexpectedEvaluation"})
+             \cup (IF (spc = "solve" /\ scfg.refine) \/ spc = "localref" \/ Probing THEN {} ELSE {"UnexpectedEvaluation"})
              \cup (IF e.yafter = e.ylog THEN {} ELSE {"YLogged"}))
-  /\ UNCHANGED <<scfg, spts, sM, sZ, sminD, strials, spc, scall0, sfault, tstats>>
+  /\ UNCHANGED <<scfg, spts, sM, sZ, sminD, strials, spc, scall0, sfault, tstats, sn>>
 
 (* the end points' stored images: image(0) and image(1) - checked once per snapshot with items *)
-EndsFails(sn) ==
-  IF "error" \in DOMAIN sn \/ sn.items = <<>> \/ Len(sn.items) < 3 THEN {}
-  ELSE LET a == sn.items[1]  b == sn.items[Len(sn.items)] IN
+EndsFails(snp) ==
+  IF "error" \in DOMAIN snp \/ snp.items = <<>> \/ Len(snp.items) < 3 THEN {}
+  ELSE LET a == snp.items[1]  b == snp.items[Len(snp.items)] IN
     IF N = 1 THEN {"SnapImage" : c \in ({c2 \in Image1Fails(Q0, a.y, scfg.lo, scfg.up) : c2 # "ImgInBox"}
                                         \cup {c2 \in Image1Fails(Q1, b.y, scfg.lo, scfg.up) : c2 # "ImgInBox"})}
     ELSE {"SnapImage" : c \in (ImageFails(Q0, a.y, scfg.lo, scfg.up, scfg.m) \cup ImageFails(Q1, b.y, scfg.lo, scfg.up, scfg.m))}
 
-SnapAll(sn) ==
+SnapAll(snp) ==
   \* stored points of the two end items are not part of spts: compare the rest, and the ends with the evolvent
-  LET core == SnapFails([sn EXCEPT !.items =
-                 IF "error" \notin DOMAIN sn /\ sn.items # <<>> /\ Len(sn.items) = Len(spts)
-                 THEN [k \in 1..Len(sn.items) |-> IF k \in {1, Len(sn.items)} THEN [sn.items[k] EXCEPT !.y = <<>>] ELSE sn.items[k]]
-                 ELSE (IF "error" \in DOMAIN sn THEN <<>> ELSE sn.items)])
-  IN core \cup EndsFails(sn)
-     \cup (IF "error" \notin DOMAIN sn /\ sn.items # <<>> /\ Len(sn.items) # Len(spts) THEN {"SnapCount"} ELSE {})
+  LET core == SnapFails([snp EXCEPT !.items =
+                 IF "error" \notin DOMAIN snp /\ snp.items # <<>> /\ Len(snp.items) = Len(spts)
+                 THEN [k \in 1..Len(snp.items) |-> IF k \in {1, Len(snp.items)} THEN [snp.items[k] EXCEPT !.y = <<>>] ELSE snp.items[k]]
+                 ELSE (IF "error" \in DOMAIN snp THEN <<>> ELSE snp.items)])
+  IN core \cup EndsFails(snp)
+     \cup (IF "error" \notin DOMAIN snp /\ snp.items # <<>> /\ Len(snp.items) # Len(spts) THEN {"SnapCount"} ELSE {})
+
+(* C13, at the return of a public call: the right number of notifications was delivered during the call *)
+SolKey(sol) == <<sol.ntr, sol.nloc, sol.acc, sol.by, sol.bv>>
+NotifRetFails(e) ==
+  IF sfault \/ e.raised # "none" THEN {} ELSE
+     (IF Hears("before") /\ strials > 0 /\ sn.before # 1 THEN {"NotifBefore"} ELSE {})
+\cup (IF Hears("enditer") /\ e.name = "dgi" /\ sn.enditers # 1 THEN {"NotifEndIterCount"} ELSE {})
+\cup (IF Hears("enditer") /\ e.name = "solve" /\ sn.enditers # strials - scall0 THEN {"NotifEndIterCount"} ELSE {})
+\cup (IF Hears("enditer") /\ e.name \in {"dgi", "solve"} /\ sn.new # <<>> THEN {"NotifNewPoints"} ELSE {})
+\cup (IF Hears("stop") /\ sn.stops # (IF e.name = "solve" THEN 1 ELSE 0) THEN {"NotifStopCount"} ELSE {})
+\cup (IF Hears("stop") /\ e.name = "solve" /\ sn.stops = 1 /\ sn.stopsol # SolKey(e.sol) THEN {"NotifStopFinal"} ELSE {})
 
 EvRet(e) ==
   LET refined == ((e.name = "solve" /\ scfg.refine) \/ e.name = "localref") /\ strials > 0
@@ -224,21 +250,58 @@ EvRet(e) ==
            \cup (IF solveok /\ ~StopMaybe THEN {"StopEarly"} ELSE {})
            \cup (IF solveok /\ e.printed_exc THEN {"NoIntExc"} ELSE {})
            \cup (IF e.name = "solve" /\ e.raised = "none" /\ ~e.ret_is_results THEN {"SolveReturnsResults"} ELSE {})
+           \cup NotifRetFails(e)
   IN /\ Note(e, f)
      /\ spc' = "idle"
+     /\ sn' = [sn EXCEPT !.last = e.sol]
      /\ UNCHANGED <<scfg, spts, sM, sZ, sminD, strials, scall0, sfault, slocal, tstats>>
 
 EvCb(e) ==
   /\ Note(e, IF e.kind = "enditer"
              THEN SnapAll(e.snap) \cup CountFails(e.sol) \cup BestFails(e.sol, "skip", FALSE)
                   \cup (IF sfault THEN {} ELSE AccFails(e.sol))
+                  \cup (IF e.newx = sn.new THEN {} ELSE {"NotifNewPoints"})
+                  \cup (IF spc \in {"dgi", "solve"} THEN {} ELSE {"NotifEndIterCount"})
+             ELSE IF e.kind = "before"
+             THEN (IF strials = 0 /\ (e.ncalc = 0 \/ Probing) /\ sn.before = 0 THEN {} ELSE {"NotifBefore"})
+             ELSE IF e.kind = "stop"
+             THEN (IF spc = "solve" THEN {} ELSE {"NotifStopCount"})
+                  \cup (IF e.same_sd THEN {} ELSE {"NotifStopFinal"})
+                  \cup (IF sfault \/ e.status = StopMaybe \/ e.status = StopDef THEN {} ELSE {"NotifStopStatus"})
+             ELSE IF e.kind = "console"
+             THEN (IF sn.last = <<>> THEN {"ConsoleReport"}
+                   ELSE IF /\ e.gtr = sn.last.ntr /\ e.ltr = sn.last.nloc
+                           /\ Len(e.point) = Len(sn.last.by)
+                           /\ \A k \in 1..Len(e.point) : QClose(e.point[k], sn.last.by[k], QAdd(QMul(QFrac(1, 10000000), QAbs(sn.last.by[k])), QFrac(1, 100000000)))
+                           /\ QClose(e.value, sn.last.bv, QFrac(6, 1000000000))
+                           /\ (IF sn.last.acc \in {"inf", "-inf"} THEN e.acc = sn.last.acc
+                               ELSE e.acc \notin {"inf", "-inf"} /\ QClose(e.acc, sn.last.acc, QFrac(6, 1000000000)))
+                        THEN {} ELSE {"ConsoleReport"})
              ELSE {})
+  /\ sn' = IF e.kind = "enditer" THEN [sn EXCEPT !.enditers = @ + 1, !.new = <<>>]
+           ELSE IF e.kind = "before" THEN [sn EXCEPT !.before = @ + 1]
+           ELSE IF e.kind = "stop" THEN [sn EXCEPT !.stops = @ + 1, !.stopsol = SolKey(e.sol)]
+           ELSE sn
   /\ UNCHANGED <<scfg, spts, sM, sZ, sminD, strials, spc, scall0, sfault, slocal, tstats>>
+
+(* events whose vectors do not have the dimension of the run they claim to belong to (e.g. notifications of  *)
+(* another solver delivered to this run's listener) are not interpreted: clause Malformed                    *)
+VecOK(v) == Len(v) = N
+SolOK(sol) == Len(sol.by) \in {0, N}
+SnapOK(snp) == "error" \in DOMAIN snp \/ \A k \in 1..Len(snp.items) : VecOK(snp.items[k].y)
+WellFormed(e) ==
+  CASE e.ev = "trial" -> scfg.n = N /\ VecOK(e.y) /\ VecOK(e.ylog) /\ VecOK(e.yafter)
+    [] e.ev \in {"fail", "local"} -> scfg.n = N /\ VecOK(e.ylog)
+    [] e.ev = "ret" -> scfg.n = N /\ SolOK(e.sol) /\ SnapOK(e.snap)
+    [] e.ev = "cb" -> scfg.n = N /\ (IF "sol" \in DOMAIN e THEN SolOK(e.sol) ELSE TRUE) /\ (IF "snap" \in DOMAIN e THEN SnapOK(e.snap) ELSE TRUE)
+    [] e.ev = "call" -> scfg.n = N
+    [] OTHER -> TRUE
 
 Consume ==
   /\ tpos <= Len(Trace)
   /\ LET e == Trace[tpos] IN
-       CASE e.ev = "init"  -> EvInit(e)
+       CASE ~WellFormed(e) -> Note(e, {"Malformed"}) /\ UNCHANGED <<scfg, spts, sM, sZ, sminD, strials, spc, scall0, sfault, slocal, tstats, sn>>
+         [] e.ev = "init"  -> EvInit(e)
          [] e.ev = "call"  -> EvCall(e)
          [] e.ev = "trial" -> EvTrial(e)
          [] e.ev = "fail"  -> EvFail(e)
@@ -252,7 +315,7 @@ Finish ==
   /\ tpos = Len(Trace) + 1 /\ ~tdone
   /\ PrintT(<<"VERDICT", [events |-> Len(Trace), nfail |-> tnfail, failed |-> tfailed, stats |-> tstats]>>)
   /\ tdone' = TRUE
-  /\ UNCHANGED <<tpos, tfailed, tnfail, tstats, scfg, spts, sM, sZ, sminD, strials, spc, scall0, sfault, slocal>>
+  /\ UNCHANGED <<tpos, tfailed, tnfail, tstats, scfg, spts, sM, sZ, sminD, strials, spc, scall0, sfault, slocal, sn>>
 
 Next == Consume \/ Finish
 Spec == Init /\ [][Next]_vars
